@@ -142,7 +142,8 @@ def rBody (o : Out) (c : Ctx) (env : Env) (selfTok : Option Tok) : FuncBody → 
     let (o, env) := match selfTok with
       | some m => declare o env m "self" .self_ []
       | none => (o, env)
-    let env : Env := if hasDots params then env else ("...", none) :: env
+    -- the enclosing function's `...` is never visible here: the body has its own (declared below) or none
+    let env : Env := ("...", none) :: env
     let (o, env) := declareParams o env params []
     (rBlock o { inFunction := true, depth := c.depth + 1 } env b).1
 /-- a block: statements extend the environment sequentially; returns the environment at its end
